@@ -360,3 +360,6 @@ def addresses(chk, repo, d):
     chk.ob("R07.3", E + "MemoryDesc", "loads and stores use base register + "
            "fmt_addr()", ok, md, "the same (format, address) on both "
            "directions")
+
+# added rules (appended to the explanation the evidence file carries)
+EXPLANATION += (" " + 'Added during the build (DESIGN.md 4.31, second table): (R07.6) switch_endian is implemented by Expression and (analysed) Constant only; the whole load route (R01.5) is decided first, calculate_unary on its own where it can be run on a bare operand.')
